@@ -127,3 +127,24 @@ def declare(reg):
         modifies=["SearchContext._sequences", "Mailbox.sequences"],
         props=["C14", "C04"],
     )
+
+
+def declare_text_keys(reg):
+    """HEADER / TEXT / BODY search keys (C14 g): case-insensitive substring tests on the header value / the rendered message."""
+    P = "asimap/search.py"
+    T = dict(trusted=True)
+    MSG = "msg_of(self.ctx.mailbox, self.ctx.msg_key)"
+    reg.specfn("rendered_str", "msg: opaque:EmailMessage, hdrs: bool", "str", doc="A-EMAIL: generator.msg_as_string (uninterpreted, deterministic)")
+    reg.contract("asimap/generator.py", "msg_as_string", params={"msg": "opaque:EmailMessage", "headers": "bool"}, ret="str",
+                 ensures={"is": "result == rendered_str(msg, headers)"}, **T, note="A-EMAIL: the string rendering of a message, with or without its top-level headers")
+    reg.contract(
+        P, "IMAPSearch._match_header", params={"self": "ref:IMAPSearch"}, ret="bool",
+        # the parser hands over the search string already lower-cased (parse.py: `.lower()` on every string argument)
+        ensures={"header-contains": f"result == (has_hdr({MSG}, self.args['header']) and (self.args['string'] in hdr({MSG}, self.args['header']).lower()))"},
+        modifies=["SearchContext._msg"], is_async=True, props=["C14"],
+    )
+    reg.contract(
+        P, "IMAPSearch._match_text", params={"self": "ref:IMAPSearch"}, ret="bool",
+        ensures={"anywhere-in-the-message": f"result == (self.args['string'] in rendered_str({MSG}, True).lower())"},
+        modifies=["SearchContext._msg"], is_async=True, props=["C14"],
+    )
